@@ -179,6 +179,15 @@ template <typename T> void battery(Slot<T>& s, uint64_t seed, CaseStats& cst, De
   }
   cst.batteries++;
   if (s.merges_in) cst.merged_battery++;
+  // half of the batteries put get_quantile FIRST, before anything that compresses: a quantile query must fold the buffered values
+  // in by itself (the other half starts with the rank grid below, so both orders of the first compress point are covered)
+  if (seed & 1) {
+    const T q0 = td.get_quantile(0), q1 = td.get_quantile(1), qm = td.get_quantile(0.5);
+    VF_CHECK(q0 == s.mn, "quantile-first-q0", "first query after " << s.buf << " buffered values: get_quantile(0) = " << q0 << ", min " << s.mn << " (n=" << s.n << ")");
+    VF_CHECK(q1 == s.mx, "quantile-first-q1", "first query after " << s.buf << " buffered values: get_quantile(1) = " << q1 << ", max " << s.mx << " (n=" << s.n << ")");
+    VF_CHECK(qm >= s.mn && qm <= s.mx, "quantile-first-range", "get_quantile(0.5) = " << qm << " outside [min, max]");
+    vf::label("battery-quantile-first");
+  }
   s.sort_model();
   // ---- value grid: distinct inputs (all, or a sample plus both ends), midpoints, neighbours, outside values
   std::vector<T> dist;
